@@ -21,7 +21,8 @@
 (*   [k |-> "root",  root, lets]   [k |-> "block", root, lets]             *)
 (*   [k |-> "value", root]         [k |-> "params", binds]                 *)
 (*                                                                         *)
-(* X is the evaluation context [F |-> rules file, dev |-> deviations].     *)
+(* X is the evaluation context [F |-> rules file, dev |-> deviations,      *)
+(* tab |-> reference table for the table-driven functions].                *)
 (* `dev` names the places where the pinned implementation knowingly        *)
 (* departs from its documentation; with dev = {} the operators follow the  *)
 (* documentation, with a deviation enabled they follow the code:           *)
@@ -34,7 +35,7 @@
 (* Results: [err |-> FALSE, ...] or [err |-> TRUE, e |-> kind].            *)
 (* Record nodes: [k, st, n, vk, ch].                                       *)
 (***************************************************************************)
-EXTENDS GuardOps
+EXTENDS GuardFunctions
 
 Ok(r)   == [err |-> FALSE, r |-> r]
 Err(e)  == [err |-> TRUE, e |-> e]
@@ -294,7 +295,13 @@ ResolveVar(X, env, name) ==
 ResolveRhs(X, rhs, env) ==
   CASE rhs.r = "val" -> Ok(<<Lit(WithPaths(rhs.v, <<>>))>>)
     [] rhs.r = "q" -> LET s == QueryStart(env) IN Query(X, rhs.q, 1, s.cur, s.env)
-    [] OTHER -> Err("functions-not-modelled")
+    [] OTHER ->
+         \* function call: arguments resolved in the current scope (resolve_function,
+         \* eval_context.rs:2437-2472); results are resolved values
+         LET args == ResolveArgs(X, rhs.a, 1, env, <<>>) IN
+         IF args.err THEN args
+         ELSE LET c == Call(rhs.f, args.r, X.tab) IN
+              IF c.err THEN Err(c.e) ELSE Ok([i \in 1 .. Len(c.vs) |-> Res(c.vs[i])])
 
 ResolveArgs(X, args, j, env, acc) ==
   IF j > Len(args) THEN Ok(acc)
@@ -580,10 +587,10 @@ HasCycle(F) ==
 \* Denote(F, doc, dev): the meaning of rules file F on document doc.
 \*   [kind |-> "ok", file |-> status, rules |-> <<<<name, status>>, ...>>, tree |-> node]
 \*   [kind |-> "err", e |-> kind]
-Denote(F, doc, dev) ==
+DenoteT(F, doc, dev, tab) ==
   IF HasCycle(F) THEN [kind |-> "err", e |-> "rule-reference-cycle"]
   ELSE
-    LET X == [F |-> F, dev |-> dev]
+    LET X == [F |-> F, dev |-> dev, tab |-> tab]
         root == DocPaths(doc)
         rootEnv == <<[k |-> "root", root |-> root, lets |-> F.lets]>>
         r == FileRules(X, 1, rootEnv, <<0, 0>>, <<>>)
@@ -592,4 +599,5 @@ Denote(F, doc, dev) ==
              rules |-> [i \in 1 .. Len(r.ns) |-> <<r.ns[i].n, r.ns[i].st>>],
              tree |-> Node("File", r.st, "", r.ns)]
 
+Denote(F, doc, dev) == DenoteT(F, doc, dev, <<>>)
 =============================================================================
